@@ -22,6 +22,7 @@ func init() {
 		run: func(p *Prog, r *Report) {
 			runKVOrder(p, r, "C28")
 			runKVCoupling(p, r)
+			runSlotFill(p, r, "C28")
 		},
 	})
 	register(&propDef{
@@ -32,6 +33,7 @@ func init() {
 			runHeaderSiblings(p, r)
 			runCopyToCoverage(p, r)
 			runSetCookieAccumulates(p, r)
+			runSlotFill(p, r, "C29")
 		},
 	})
 }
